@@ -419,19 +419,48 @@ def rule_matchbase(ctx: Ctx, rule: str) -> None:
     ctx.ob(rule, f'{WP}:WcParse._parse/anchor-clears-matchbase', oka, repo.loc(WP, fi.node),
            'stripping an anchoring slash clears matchbase and extmatchbase', str(oka),
            witness="WcMatch file pattern '/a.txt' with MATCHBASE matches only at the root")
-    # _GlobSplit.split predicate
+    # _GlobSplit.split: the implicit `**/` part (site slice of the parts.insert call)
+    from .common import site_events
+    from ..symeval import focus, _tag
     sp = repo.func('glob', '_GlobSplit.split')
-    ifs = [n for n in walk_no_nested(sp.node) if isinstance(n, ast.If) and 'matchbase' in norm_src(n.test)]
-    want = 'self.extmatchbase and (not parts[0].is_drive) or (self.matchbase and len(parts) == 1 and (not parts[0].dir_only))'
-    from ..boolform import equivalent_tests
-    okg = any(equivalent_tests(n.test, want) for n in ifs)
-    ctx.ob(rule, 'glob:_GlobSplit.split/implicit-part-predicate', okg, repo.loc('glob', sp.node), want,
-           '; '.join(norm_src(n.test) for n in ifs) or 'no matchbase test',
-           witness="glob('a.txt', flags=MATCHBASE) finds sub/a.txt; glob('d/a.txt', flags=MATCHBASE) does not recurse")
-    gs = [n for n in walk_no_nested(sp.node) if isinstance(n, ast.If) and norm_src(n.test) in
-          ('self.globstarlong and self.follow', 'self.follow and self.globstarlong')]
-    ctx.ob(rule, 'glob:_GlobSplit.split/implicit-part-kind', bool(gs), repo.loc('glob', sp.node),
-           '`***` iff globstarlong ∧ follow (mirrors WcParse._parse)', str(bool(gs)))
+    sites = site_events(repo, 'glob', '_GlobSplit.split', lambda c: norm_src(c.func).endswith('.insert'), all_paths=True)
+    if len(sites) != 1:
+        raise AnalysisError(f'_GlobSplit.split: {len(sites)} insertion sites')
+    c0, hits, every = sites[0]
+    bad_p, bad_k = [], []
+    ins_paths = {id(p) for p, _e in hits}
+    for p in every:
+        focus(p)
+        d = p.decisions
+        if p.raised:
+            continue
+        ext, mb = d.get('self.extmatchbase'), d.get('self.matchbase')
+        drv = [v for k, v in d.items() if k.endswith('.is_drive')]
+        one = [v for k, v in d.items() if k.startswith('len(') and k.endswith(' == 1')]
+        don = [v for k, v in d.items() if k.endswith('.dir_only')]
+        want = (ext is True and drv[:1] == [False]) or (mb is True and one[:1] == [True] and don[:1] == [False])
+        if (id(p) in ins_paths) != want:
+            bad_p.append(f'extmatchbase={ext} first-is-drive={drv[:1]} matchbase={mb} single-part={one[:1]} first-dir_only={don[:1]}: inserted={id(p) in ins_paths}')
+    for p, e in hits:
+        focus(p)
+        d = p.decisions
+        long_ = d.get('self.globstarlong') is True and d.get('self.follow') is True
+        isb = d.get('isinstance(self.pattern, bytes)')
+        a_ = e[2]
+        part = None
+        for ce in p.of('call'):
+            if ce[1] == 'glob:_GlobPart' and len(ce[2]) == 6 and ce[2][1] is True and ce[2][2] is True:
+                part = ce[2]
+        star = ('***' if long_ else '**')
+        if part is None or isb is None or part[0] != (star.encode() if isb else star) or part[3] is not long_ or part[4] is not True or part[5] is not False or \
+                not a_ or a_[0] != 0 or (d.get('self.globstarlong') is True and d.get('self.follow') is None):
+            bad_k.append(f'globstarlong={d.get("self.globstarlong")} follow={d.get("self.follow")} bytes={isb}: inserts {[_tag(x) for x in part] if part else None} at {_tag(a_[0]) if a_ else None}')
+    ctx.ob(rule, 'glob:_GlobSplit.split/implicit-part-predicate', not bad_p and len(hits) >= 4, repo.loc('glob', c0),
+           'inserted iff (extmatchbase and the first part is no drive) or (matchbase and there is exactly one part and it is not dir_only)',
+           f'{len(every)} rows agree' if not bad_p else sorted(set(bad_p))[0][:220], witness="glob('a.txt', flags=MATCHBASE) finds sub/a.txt; glob('d/a.txt', flags=MATCHBASE) does not recurse")
+    ctx.ob(rule, 'glob:_GlobSplit.split/implicit-part-kind', not bad_k and len(hits) >= 4, repo.loc('glob', c0),
+           '_GlobPart(`***` iff globstarlong ∧ follow else `**` (str / bytes), True, True, <that>, True, False) inserted in front',
+           f'{len(hits)} insertions agree' if not bad_k else sorted(set(bad_k))[0][:220], witness="rglob('x', GLOBSTARLONG|FOLLOW) follows links like `***/x`")
 
 
 # ------------------------------------------------------------------------------------------------ R7
